@@ -134,14 +134,14 @@ fn year_lines(ctx: &Ctx, tag: &str, years: Vec<i64>) -> usize {
 }
 
 pub fn run(ctx: &Ctx) -> usize {
-  let mut wins = day_windows(ctx, 1701, 30, 200, 1);
+  let mut wins = day_windows(ctx, 1701, 100, 200, 1);
   if ctx.quick() {
     // leap months (every day of them matters for the six-day star) and the turn of the year
     for y in [2020i64, 2023, 2033, 1651, 984, 7013] {
       wins.push(Window { start: Start::Ymd(y, 1, 1), days: 400 });
     }
     let mut rng = ctx.rng(1702);
-    for _ in 0..40 {
+    for _ in 0..120 {
       let y = rng.range(2, 9997);
       wins.push(Window { start: Start::Ymd(y, 12, 10), days: 60 });
     }
@@ -150,7 +150,7 @@ pub fn run(ctx: &Ctx) -> usize {
   let years: Vec<i64> = if ctx.quick() {
     let mut v: Vec<i64> = vec![-1, 0, 1, 2, 1863, 1864, 1865, 1923, 1924, 1983, 1984, 2023, 2043, 2044, 9998, 9999];
     let mut rng = ctx.rng(1703);
-    for _ in 0..150 {
+    for _ in 0..1200 {
       v.push(rng.range(1, 9999));
     }
     v
@@ -159,7 +159,7 @@ pub fn run(ctx: &Ctx) -> usize {
   };
   let parts = deal(years, ctx.threads);
   let mut b = 0usize;
-  let nh = if ctx.quick() { 60 } else { 3000 };
+  let nh = if ctx.quick() { 200 } else { 3000 };
   std::thread::scope(|s| {
     let hs: Vec<_> = parts.into_iter().enumerate().map(|(t, p)| s.spawn(move || year_lines(ctx, &format!("y{:02}", t), p) + hour_lines(ctx, &format!("h{:02}", t), nh, 17000 + t as u64))).collect();
     for h in hs {
